@@ -139,6 +139,26 @@ def sm_time_fields(ctx) -> List[str]:
     return out
 
 
+_NODEFAULT = object()
+
+
+def _declared_default(ctx, cls: str, field: str):
+    """literal default of a dataclass field anywhere in the MRO of cls (dotted paths like samples.offset have none)"""
+    M = ctx.M
+    if "." in field:
+        return _NODEFAULT
+    for k in M.mro(cls):
+        if k not in M.classes:
+            continue
+        for st in M.classes[k].node.body:
+            if isinstance(st, ast.AnnAssign) and isinstance(st.target, ast.Name) and st.target.id == field and st.value is not None:
+                try:
+                    return ast.literal_eval(st.value)
+                except Exception:
+                    return _NODEFAULT
+    return _NODEFAULT
+
+
 def rule_r4(ctx) -> List[R.Inst]:
     M = ctx.M
     insts = []
@@ -155,8 +175,26 @@ def rule_r4(ctx) -> List[R.Inst]:
             key = f"{cname}.rate:{f}"
             got = sc.field_ops.get(f)
             if got and got[0] == "div":
-                insts.append(R.ok("C13.R4", key, M.mods[M.fn("reamber." + got[2]).mod].rel if ("reamber." + got[2]) in M.funcs else file,
-                                  got[1].lineno, idiom=f"{f} /= rate (in {got[2]})"))
+                gfile = M.mods[M.fn("reamber." + got[2]).mod].rel if ("reamber." + got[2]) in M.funcs else file
+                insts.append(R.ok("C13.R4", key, gfile, got[1].lineno, idiom=f"{f} /= rate (in {got[2]})"))
+                # a field whose declared default is a sentinel (-1 = "no preview point", None = "not set") is not a time while it
+                # holds the sentinel: the scaling must be guarded, or 'unset' becomes a real time (-1 / 2 = -0.5, written as 0)
+                dv = _declared_default(ctx, cls, f)
+                if dv is not _NODEFAULT and (dv is None or (isinstance(dv, (int, float)) and not isinstance(dv, bool) and dv < 0)):
+                    guarded = False
+                    if ("reamber." + got[2]) in M.funcs:
+                        for n in ast.walk(M.fn("reamber." + got[2]).node):
+                            if isinstance(n, ast.If) and any(x is got[1] for b in n.body for x in ast.walk(b)) and f in unparse(n.test):
+                                guarded = True
+                    k2 = f"{cname}.rate:{f}:sentinel"
+                    if guarded:
+                        insts.append(R.ok("C13.R4", k2, gfile, got[1].lineno, idiom=f"scaled only when it is not the sentinel {dv!r}"))
+                    else:
+                        insts.append(R.viol("C13.R4", k2, gfile, got[1].lineno,
+                                            f"'{f}' defaults to {dv!r} — the format's value for 'not set' — and is divided by the rate "
+                                            f"unconditionally: an unset {f} becomes {dv!r}/r (-0.5 for r = 2), the writer's int() turns that into "
+                                            f"0, and the chart read back has a real {f} at 0 ms",
+                                            construct=f"{cname}.{f} /= rate without a sentinel guard"))
             else:
                 chain = " -> ".join(short(m) for m in sc.methods)
                 insts.append(R.viol("C13.R4", key, file, line,
